@@ -41,7 +41,12 @@ import (
 	"github.com/mgtv-tech/redis-GunYu/syncer"
 )
 
-var schedKinds = []string{"none", "moved-between", "moved-mid", "ask", "back-forth", "node-added", refreshMidBuild, connReset}
+var schedKinds = []string{"none", "moved-between", "moved-mid", "ask", "back-forth", "node-added", refreshMidBuild, connReset, connLost}
+
+// connLost: the second connection fault: a node applies a complete (small) pipelined node batch —
+// not the first one it got from this client — and closes the connection before writing any
+// reply; later connections are served normally (see lostPlan).
+const connLost = "conn-lost-before-reply"
 
 // connReset: not a migration but a connection fault on a cluster node: the node executes the
 // first k commands of a multi-megabyte node batch, stops reading and resets the connection while
@@ -76,6 +81,12 @@ func (c caseCfg) String() string {
 		c.Txn, c.Pipeline, c.Nodes, c.Sched, c.MultiKey, c.SlowRefresh, c.BatchCount, c.BatchBytes, c.BatchTicker, c.KeepAlive, c.CpTicker,
 		c.NCmds, c.NTags, c.Version, c.PlanStyle, c.PauseUnit, c.BufSize)
 }
+
+// hazards (C19_HAZARDS=1, never set by the registered commands) re-enables what the connection
+// fault schedules leave out behind a PIPELINED sender — a tail after the faulted batch, a first
+// part before it — to reproduce the two ordering hazards written up in
+// proposed_fixes/C19-4-*.md and C19-5-*.md.  They are not raised by default.
+var hazards = os.Getenv("C19_HAZARDS") != ""
 
 func modeSig(c caseCfg) string { return fmt.Sprintf("txn=%v|pipe=%v", c.Txn, c.Pipeline) }
 
@@ -113,9 +124,23 @@ func genCase(i int, r *rand.Rand) caseCfg {
 		c.BufSize = 64 * 1024
 	}
 	if c.Sched == connReset {
-		// one flush must carry the whole big batch: no ticker may cut it while it is being parsed
-		c.BatchTicker, c.KeepAlive, c.CpTicker = 300*time.Millisecond, 300*time.Millisecond, 300*time.Millisecond
+		// one flush must carry the whole big batch.  Transactional mode: the batch is a source
+		// MULTI…EXEC group, which no ticker cuts.  Non-transactional mode: the batch is flushed by
+		// its command count and the tickers are far longer than the batch takes to be parsed
+		// (at most two such cases run their heavy phase at a time, see heavyPhase)
+		tick := 300 * time.Millisecond
 		c.NCmds = 20 + r.Intn(40)
+		if !c.Txn {
+			tick = 2 * time.Second
+		}
+		if !c.Txn && c.Pipeline && !hazards {
+			// a pipelined sender must never have a second batch in flight behind the big one
+			// (see the note on the tail in genWorkload): the stream is the big batch alone and
+			// no ticker fires while it is parsed; the run ends with the reported write error
+			tick = 10 * time.Minute
+			c.NCmds = 0
+		}
+		c.BatchTicker, c.KeepAlive, c.CpTicker = tick, tick, tick
 		c.BufSize = 64 * 1024
 		c.MultiKey = false
 	}
@@ -136,6 +161,8 @@ func main() {
 	run.Assume("workload: every hash tag owns typed keys (string/list/hash/set/zset) so no generated command can fail on a consistent replica; the double executes them for real (key existence drives ASK/TRYAGAIN); an error reply of the double to a generated command makes the case inconclusive")
 	run.Assume("a Send that returns by itself (any error, or nil) is followed by StartPoint+Send in the tool's input loop: it counts as a reported restart from the stored resume position")
 	run.Assume("schedule refresh-mid-build (blocking non-transactional sender only): after the victim slot migrated, a lone write on it is answered MOVED and makes the client request a fresh slot table; the double holds that CLUSTER SLOTS reply back until it sees the COMMAND GETKEYS request the client issues while building the next batch — the stream carries one EXISTS (a command outside the client's key table, not something a master propagates) between the writes on the victim key for that purpose — then waits 4 ms before answering; the old owner answers every request 1 ms late. Delays only shape the interleaving, the verdict is the per-key order oracle's")
+	run.Assume("schedule conn-reset (a connection fault, at the edge of the property's quantifier): a node executes the first k (1–12) commands of a 12–14 MB node batch (64 KiB values; more than the loop-back socket buffers take in, so the client is still writing), then closes the connection with the rest unread (the kernel resets it); later connections are served normally. Expected: the run ends with a reported error and, in transactional mode, no id is applied twice; in non-transactional mode a re-sent batch (repeat from an earlier position) is allowed by the statement")
+	run.Assume("schedule conn-lost-before-reply (connection fault, edge of the quantifier): a node that already served earlier node batches of this client executes a complete small pipelined node batch (2–8 non-idempotent writes, one TCP segment) and closes the connection without having written a reply; later connections are served normally. Expected: reported connection error, nothing applied twice in transactional mode")
 	run.Assume("quiescence = the sender stored the stream's end offset as resume position (it consumed every item and flushed its queue) and 4 keep-alive PING batches were served afterwards (at most 3 batches are in flight behind the dispatcher)")
 
 	harness.Parallel(n, 16, func(i int) {
@@ -189,9 +216,19 @@ type resetPlan struct {
 	bytes    int
 }
 
+// lostPlan describes the scripted part of a conn-lost-before-reply stream.
+type lostPlan struct {
+	node     int    // the node that loses the connection
+	offBatch int64  // start of the victim batch (everything before it is applied first)
+	offTail  int64  //
+	batchLen int    // commands of the victim batch (= BatchCmdCount of the case)
+	lastID   string // id of its last command: when the node has executed it, it hangs up
+}
+
 type workload struct {
 	mid    *midBuild
 	reset  *resetPlan
+	lost   *lostPlan
 	st     *gen.Stream
 	writes []*wr
 	byID   map[string]*wr
@@ -354,6 +391,49 @@ func genWorkload(r *rand.Rand, cc caseCfg, tags []*tagT, hist string) *workload 
 			write(-1)
 		}
 	}
+	if cc.Sched == connLost {
+		// a few earlier commands on the node (so that the victim batch is not the first node batch
+		// it gets: the client's connection to it comes out of the pool), then the victim batch:
+		// 2–8 small non-idempotent writes, all on keys of that node
+		target := tags[r.Intn(len(tags))].node
+		var on []*tagT
+		for _, t := range tags {
+			if t.node == target {
+				on = append(on, t)
+			}
+		}
+		small := func() *wr {
+			id := fmt.Sprintf("~%s.%d~", hist, nextID)
+			nextID++
+			t := on[r.Intn(len(on))]
+			t.uses++
+			val := b(id + "v" + strconv.Itoa(r.Intn(1000)))
+			switch r.Intn(4) {
+			case 0:
+				return emit("append", [][]byte{b(t.key("s1")), val}, []string{t.key("s1")}, id, -1)
+			case 1:
+				return emit("rpush", [][]byte{b(t.key("l")), val}, []string{t.key("l")}, id, -1)
+			case 2:
+				return emit("sadd", [][]byte{b(t.key("e")), val}, []string{t.key("e")}, id, -1)
+			default:
+				return emit("hset", [][]byte{b(t.key("h")), b("f"), val}, []string{t.key("h")}, id, -1)
+			}
+		}
+		for i, n := 0, 2+r.Intn(3); i < n; i++ {
+			small()
+		}
+		p := &lostPlan{node: target, offBatch: int64(len(st.Bytes)), batchLen: 2 + r.Intn(7)}
+		for i := 0; i < p.batchLen; i++ {
+			p.lastID = small().id
+		}
+		p.offTail = int64(len(st.Bytes))
+		if !cc.Pipeline || hazards { // no tail behind a pipelined sender (see the note in the conn-reset block)
+			for i, n := 0, 5+r.Intn(10); i < n; i++ {
+				write(-1)
+			}
+		}
+		w.lost = p
+	}
 	if cc.Sched == connReset {
 		// a node batch of 12–14 MB, all on keys of one node: far more than the loop-back socket
 		// buffers take in (measured here: at most ~5.5 MB beyond what the peer has read), so the
@@ -367,6 +447,9 @@ func genWorkload(r *rand.Rand, cc caseCfg, tags []*tagT, hist string) *workload 
 		}
 		p := &resetPlan{node: target, offBig: int64(len(st.Bytes)), batchLen: 185 + r.Intn(30), k: 1 + r.Intn(12)}
 		pad := strings.Repeat("x", 64*1024)
+		if cc.Txn {
+			add(gen.KMulti, "MULTI", nil, "", groups)
+		}
 		for i := 0; i < p.batchLen; i++ {
 			id := fmt.Sprintf("~%s.%d~", hist, nextID)
 			nextID++
@@ -384,10 +467,21 @@ func genWorkload(r *rand.Rand, cc caseCfg, tags []*tagT, hist string) *workload 
 				emit("hset", [][]byte{b(t.key("h")), b("f"), val}, []string{t.key("h")}, id, -1)
 			}
 		}
+		if cc.Txn {
+			add(gen.KExec, "EXEC", nil, "", groups)
+			groups++
+		}
 		p.offTail = int64(len(st.Bytes))
 		p.bytes = int(p.offTail - p.offBig)
-		for i, n := 0, 5+r.Intn(10); i < n; i++ {
-			write(-1)
+		// an ordinary tail — not behind a pipelined sender: that one dispatches the tail to the
+		// node while the big batch is still being written / failing, and the node pipeline sends
+		// it on a fresh connection, so the tail takes effect although its predecessors never did
+		// (reported, repaired by the restart; a connection-fault hazard outside this property's
+		// migration quantifier, reported to the coordinator rather than raised here)
+		if !cc.Pipeline || hazards {
+			for i, n := 0, 5+r.Intn(10); i < n; i++ {
+				write(-1)
+			}
 		}
 		w.reset = p
 	}
@@ -599,6 +693,10 @@ func installSchedule(r *rand.Rand, cc caseCfg, cl *fakeredis.Cluster, victims []
 	}
 }
 
+// heavyPhase limits how many conn-reset cases push their multi-megabyte batch through the tool
+// at the same time (keeps the parse of such a batch short compared with the sender's tickers).
+var heavyPhase = make(chan struct{}, 2)
+
 // ---- one case
 
 type outcome struct {
@@ -737,8 +835,17 @@ func oneCase(run *harness.Run, key string, idx int, r *rand.Rand, cc caseCfg) {
 	cfg.BatchTicker = cc.BatchTicker
 	cfg.KeepaliveTicker = cc.KeepAlive
 	cfg.UpdateCheckpointTicker = cc.CpTicker
+	if w.lost != nil {
+		cfg.BatchCmdCount = uint(w.lost.batchLen) // the victim batch goes out when it is complete
+	}
 	if w.reset != nil {
 		cfg.BatchCmdCount = uint(w.reset.batchLen) // the big batch goes out in one flush
+		if cc.NCmds == 0 {
+			// the leading SELECT is queued (and counted) with the batch; nothing may be left
+			// in the sender's queue: the non-transactional pipelined sender flushes whatever is
+			// queued when a batch fails asynchronously, i.e. commands later than the failed ones
+			cfg.BatchCmdCount++
+		}
 		cfg.BatchBufferSize = 1 << 30
 	}
 
@@ -799,7 +906,7 @@ func oneCase(run *harness.Run, key string, idx int, r *rand.Rand, cc caseCfg) {
 	cpAtEnd := make(chan struct{})
 	var cpOnce sync.Once
 	var part1Hook func(id string)
-	var resetArmed, resetFired atomic.Bool
+	var resetArmed, resetFired, heavyHeld atomic.Bool
 	// waitApplied returns a channel closed once every id of the set has been applied (to be
 	// called before the replay starts)
 	var hooks []func(id string)
@@ -889,6 +996,36 @@ func oneCase(run *harness.Run, key string, idx int, r *rand.Rand, cc caseCfg) {
 		plan = append(drive.Plan(r, st.Bytes[:cutOff], cc.PauseUnit, cc.PlanStyle),
 			drive.Step{Gate: gate})
 		plan = append(plan, drive.Plan(r, st.Bytes[cutOff:], cc.PauseUnit, cc.PlanStyle)...)
+	} else if p := w.lost; p != nil {
+		// everything before the victim batch | gate: the fault is armed | the victim batch in one
+		// piece | tail.  The node executes the node batch up to and including its last command and
+		// hangs up without having written a reply (the replies of a pipelined burst are only
+		// flushed once its input is drained); later connections are served normally.
+		before := map[string]bool{}
+		for _, x := range w.writes {
+			if st.Cmds[x.cmd].Start < p.offBatch {
+				before[x.id] = true
+			}
+		}
+		part1 := waitApplied(before)
+		gate := make(chan struct{})
+		cl.Node(p.node).SetHooks(nil, nil, func(q *fakeredis.Req) bool {
+			// called with the node's lock held
+			if !resetArmed.Load() || gen.FindID(q.Args) != p.lastID {
+				return false
+			}
+			resetArmed.Store(false)
+			resetFired.Store(true)
+			return true
+		})
+		go func() {
+			<-part1
+			resetArmed.Store(true)
+			close(gate)
+		}()
+		plan = append(drive.Plan(r, st.Bytes[:p.offBatch], cc.PauseUnit, cc.PlanStyle), drive.Step{Gate: gate},
+			drive.Step{Data: st.Bytes[p.offBatch:p.offTail]})
+		plan = append(plan, drive.Plan(r, st.Bytes[p.offTail:], cc.PauseUnit, cc.PlanStyle)...)
 	} else if p := w.reset; p != nil {
 		// part 1 | gate: the fault is armed | the big batch in one piece | tail.  The node executes
 		// k of the big commands, then closes the connection with the rest unread (the kernel
@@ -917,8 +1054,15 @@ func oneCase(run *harness.Run, key string, idx int, r *rand.Rand, cc caseCfg) {
 		})
 		go func() {
 			<-part1
+			heavyPhase <- struct{}{}
+			heavyHeld.Store(true)
 			resetArmed.Store(true)
 			close(gate)
+		}()
+		defer func() {
+			if heavyHeld.Load() {
+				<-heavyPhase
+			}
 		}()
 		plan = append(drive.Plan(r, st.Bytes[:p.offBig], cc.PauseUnit, cc.PlanStyle), drive.Step{Gate: gate},
 			drive.Step{Data: st.Bytes[p.offBig:p.offTail]})
@@ -1222,7 +1366,11 @@ func oneCase(run *harness.Run, key string, idx int, r *rand.Rand, cc caseCfg) {
 				if oq := reqByGReq[s.greq]; jq != nil && oq != nil && jq.Node == oq.Node && jq.Conn == oq.Conn {
 					via = "same-pipeline"
 				}
-				viol(fmt.Sprintf("order|%s|%s|jumped-over=%s|successor=%s", cls, modeSig(cc), jumped, via), key,
+				sig := fmt.Sprintf("order|%s|%s|jumped-over=%s|successor=%s", cls, modeSig(cc), jumped, via)
+				if cc.Sched == connReset || cc.Sched == connLost {
+					sig += "|after=" + cc.Sched // behind a connection fault, not a redirect
+				}
+				viol(sig, key,
 					fmt.Sprintf("key %q: command #%d took effect right after #%d (of %d) — %s; #%d had been answered %q by then, the overtaking command ran %s [schedule %s]",
 						k, s.p, prev, len(exp), cls, prev+1, jumped, via, cc.Sched),
 					witness(k, prev+1))
@@ -1278,26 +1426,16 @@ func oneCase(run *harness.Run, key string, idx int, r *rand.Rand, cc caseCfg) {
 			dups++
 			if cc.Txn && !dupReported {
 				dupReported = true
-				viol("txn-duplicate|"+modeSig(cc), key, fmt.Sprintf("transactional mode: %s applied %d times within one run [schedule %s]", x.id, n, cc.Sched),
+				sig := "txn-duplicate|" + modeSig(cc)
+				if cc.Sched == connReset || cc.Sched == connLost {
+					sig += "|after=" + cc.Sched // re-sent after a connection fault, not after a redirect
+				}
+				viol(sig, key, fmt.Sprintf("transactional mode: %s applied %d times within one run [schedule %s]", x.id, n, cc.Sched),
 					witness(x.keys[0], w.pos[x.keys[0]][x.id]))
 			}
 		}
 	}
 
-	if os.Getenv("C19_DEBUG") != "" && w.reset != nil {
-		per := map[string]int{}
-		var order []string
-		for _, q := range reqs {
-			if q.Node == w.reset.node {
-				k := fmt.Sprintf("conn%d", q.Conn)
-				if per[k] == 0 {
-					order = append(order, k)
-				}
-				per[k]++
-			}
-		}
-		fmt.Println("DEBUG", key, cc.String(), "k=", w.reset.k, "batch=", w.reset.batchLen, "bytes=", w.reset.bytes, "err=", oc.err, "conns:", order, per, "applied", nBiz)
-	}
 	// ---- coverage
 	fired := cc.Sched == "none" || len(cl.Events()) > 0 || resetFired.Load() // at least one scripted change / fault happened during the replay
 	oSig := oc.kind
@@ -1323,6 +1461,12 @@ func oneCase(run *harness.Run, key string, idx int, r *rand.Rand, cc caseCfg) {
 	run.Seen("outcomes", oSig)
 	if !fired {
 		run.Count("runs_schedule_not_reached", 1)
+	}
+	if w.lost != nil {
+		run.Count("conn_lost_before_reply_runs", 1)
+		if resetFired.Load() {
+			run.Count("conn_lost_before_reply_node_hung_up_after_executing_the_batch", 1)
+		}
 	}
 	if w.reset != nil {
 		run.Count("conn_reset_runs", 1)
